@@ -14,5 +14,9 @@ for path in sorted(glob.glob(os.path.join(ROOT, "evidence", "C*.json"))):
     mod = importlib.import_module("fv.checks." + cid.lower())
     c = e["coverage"]["counters"]
     out[cid] = {name: int(c[name] * 0.35) for name in getattr(mod, "REQUIRED_COUNTERS", []) if c.get(name, 0) >= 20}
+    # reference counts of declines (exceptions tolerated by the property): a run in which operations decline far more often than
+    # on the reference run has lost its coverage and is INCONCLUSIVE
+    out[cid]["__evaluations__"] = int(e["coverage"]["evaluations"])
+    out[cid]["__declines__"] = {k: int(v) for k, v in c.items() if "declined" in k and "as-required" not in k}
 json.dump(out, open(os.path.join(ROOT, "fv", "floors.json"), "w"), indent=1, sort_keys=True)
 print("wrote floors for", len(out), "checks")
